@@ -62,7 +62,7 @@ Section Spec.
 
   Fixpoint wf (e : src D) : Prop :=
     match e with
-    | SLeaf nd _ => n_type nd <> TDir
+    | SLeaf nd _ => n_type nd <> TDir /\ n_subtree nd = None
     | SDir nd cs => n_type nd = TDir /\ allP wf cs
     end.
 
